@@ -65,8 +65,15 @@ def gen_case(rng, tier, idx):
         return {"kind": kind, "candles": [(o, h, min(l, o, c), c) for o, h, l, c in cs]}
     pat = rng.choice(list(P.VARIANTS))
     var = rng.choice(P.VARIANTS[pat]) if rng.random() < 0.7 else "witness"
-    cs, expect = P.make(rng, pat, var)
-    return {"kind": kind, "pattern": pat, "variant": var, "candles": cs, "expect": expect, "k": rng.choice([-4, -1, 3, 8]),
+    made = None
+    for _ in range(8):
+        made = P.make(rng, pat, var)
+        if made is not None:
+            break
+    if made is None:
+        return {"kind": "skipped", "pattern": pat, "variant": var}
+    cs, expect, regime = made
+    return {"kind": kind, "pattern": pat, "variant": var, "candles": cs, "expect": expect, "regime": regime, "k": rng.choice([-4, -1, 3, 8]),
             "shift": rng.choice([-16.0, 7.5, 1000.25, 65536.0]), "tail": rng.randint(0, 3)}
 
 
@@ -148,6 +155,7 @@ def run_pattern(case, stats, V):
     # later candles must not matter for the explicit index; default index is evaluated without the tail
     tail = [base[-2]] * case["tail"]
     stats.setdefault("pattern_variants_seen", set()).add(f"{pat}:{var}")
+    stats.setdefault("pattern_regimes", {})[case.get("regime", "uniform")] = 1
     for label, cs in (("as-built", base), (f"x2^{case['k']}", [tuple(v * 2.0 ** case["k"] for v in c) for c in base]),
                       (f"shift{case['shift']:+}", [tuple(v + case["shift"] for v in c) for c in base])):
         L = mk(cs)
@@ -174,6 +182,8 @@ def run_case(case):
         if len(viol) < 4 and sig not in [v["sig"] for v in viol]:
             viol.append({"monitor": monitor, "sig": sig, "detail": detail})
 
+    if case["kind"] == "skipped":
+        return {"violations": [], "nontrivial": False, "stats": {"pattern_constructions_dropped_by_validator": 1}}
     try:
         nontrivial = {"movement": run_movement, "geometry": run_geometry, "pattern": run_pattern}[case["kind"]](case, stats, V)
     except Exception as e:
